@@ -453,3 +453,51 @@ fn c08_rle16_color_run_partial() {
     kani::cover!(c == 0xffff, "white");
     forget(r);
 }
+
+/// a run of 8 on an image narrower than 8 pixels: the decoder's 8-way unrolled loop must not be entered (and its
+/// guard must not underflow): COLOR_RUN of 8 fills a 4x2 image
+#[kani::proof]
+#[kani::unwind(14)]
+fn c08_rle16_run8_narrow() {
+    let c: u16 = kani::any();
+    let input = [0x68u8, c as u8, (c >> 8) as u8];
+    let mut out = [0u16; 8];
+    let r = rle_16_decompress(&input, 4, 2, &mut out);
+    assert!(r.is_ok(), "decodes");
+    let mut i = 0;
+    while i < 8 { assert!(out[i] == c, "COLOR_RUN of 8 on a 4x2 image"); i += 1; }
+    kani::cover!(c == 0x0f0f, "sample");
+    forget(r);
+}
+
+/// two consecutive BG_RUNs, the second crossing a scanline end: the foreground pixel is inserted once, at the
+/// start of the second run only
+#[kani::proof]
+#[kani::unwind(14)]
+fn c09_rle16_bg_bg_cross_line() {
+    let a: [u16; 2] = kani::any();
+    let input = [0x82u8, a[0] as u8, (a[0] >> 8) as u8, a[1] as u8, (a[1] >> 8) as u8, 0x01, 0x03];
+    let mut out = [0u16; 6];
+    let r = rle_16_decompress(&input, 2, 3, &mut out);
+    assert!(r.is_ok(), "decodes");
+    // scanlines bottom-up: out[4..6] first, out[2..4] second, out[0..2] third
+    assert!(out[4] == a[0] && out[5] == a[1], "first scanline verbatim");
+    assert!(out[2] == a[0] && out[3] == a[1] ^ 0xffff, "second scanline: BG_RUN(1) copies, BG_RUN(3) starts with the inserted foreground pixel");
+    assert!(out[0] == out[2] && out[1] == out[3], "third scanline: the run continues as a plain copy of the line above");
+    kani::cover!(a[0] != a[1], "distinct");
+    forget(r);
+}
+
+/// MEGA_MEGA DITHERED_RUN with the largest 16-bit pair count on a small image: refused or decoded, never a panic
+#[kani::proof]
+#[kani::unwind(14)]
+fn c08_rle16_mega_dithered_max() {
+    let c1: u16 = kani::any();
+    let c2: u16 = kani::any();
+    let input = [0xF8u8, 0xFF, 0xFF, c1 as u8, (c1 >> 8) as u8, c2 as u8, (c2 >> 8) as u8];
+    let mut out = [0u16; 4];
+    let r = rle_16_decompress(&input, 2, 2, &mut out);
+    assert!(r.is_err(), "131070 pixels do not fit a 2x2 image: refused");
+    kani::cover!(c1 != c2, "distinct");
+    forget(r);
+}
